@@ -12,6 +12,7 @@ package sched
 
 import (
 	"runtime"
+	"strings"
 	"time"
 
 	"verif/sim/internal/tape"
@@ -93,6 +94,7 @@ type Task struct {
 	state    int // 0 parked at a yield, 1 blocked outside the scheduler, 2 done; driver-owned
 	local    *Local
 	aborted  bool
+	goid     int64
 	lastSite int // driver-owned
 }
 
@@ -243,6 +245,46 @@ func Yield(site int) {
 	}
 }
 
+//go:norace
+func setGoid(t *Task) { t.goid = goid() }
+
+//go:norace
+func getGoid(t *Task) int64 { return t.goid }
+
+// goroutineState returns the scheduler state the Go runtime reports for goroutine id
+// ("running", "runnable", "semacquire", "sync.Mutex.Lock", "chan receive", ...), or "" if
+// it no longer exists. Used only after a hand-over timed out, to tell a task that is merely
+// slow (a starved machine) from one that is blocked on something the simulator does not own.
+func goroutineState(id int64) string {
+	buf := make([]byte, 1<<20)
+	n := runtime.Stack(buf, true)
+	want := "goroutine " + itoa64(id) + " ["
+	s := string(buf[:n])
+	i := strings.Index(s, want)
+	if i < 0 {
+		return ""
+	}
+	s = s[i+len(want):]
+	if j := strings.IndexAny(s, ",]"); j >= 0 {
+		s = s[:j]
+	}
+	return s
+}
+
+func itoa64(v int64) string {
+	if v == 0 {
+		return "0"
+	}
+	var b [20]byte
+	p := len(b)
+	for v > 0 {
+		p--
+		b[p] = byte('0' + v%10)
+		v /= 10
+	}
+	return string(b[p:])
+}
+
 // Policies.
 const (
 	PolRunToCompletion = iota
@@ -313,6 +355,7 @@ func Run(cfg Config, bodies []func(t *Task)) *Result {
 		tasks[i] = t
 		go func(t *Task, body func(*Task)) {
 			raceDisable()
+			setGoid(t)
 			<-t.wake
 			register(t)
 			raceEnable()
@@ -373,8 +416,7 @@ func Run(cfg Config, bodies []func(t *Task)) *Result {
 			}
 		}
 		timer.Reset(wait)
-		select {
-		case m := <-t.back:
+		accept := func(m msg) bool {
 			res.Steps++
 			res.SiteHits[m.site]++
 			if cfg.KeepLog {
@@ -392,7 +434,28 @@ func Run(cfg Config, bodies []func(t *Task)) *Result {
 				cfg.OnYield(t.ID, m.site, now)
 			}
 			return true
+		}
+		select {
+		case m := <-t.back:
+			return accept(m)
 		case <-timer.C:
+			if wait == tDetect && t.state != 1 {
+				// Slow or stuck? A goroutine the runtime still reports as running or runnable is
+				// only slow (the machine is starved): keep waiting, in slices, for up to ten
+				// seconds. Anything else is blocked on something outside the simulator.
+				for slice := 0; slice < 100; slice++ {
+					st := goroutineState(getGoid(t))
+					if st != "running" && st != "runnable" {
+						break
+					}
+					timer.Reset(tDetect)
+					select {
+					case m := <-t.back:
+						return accept(m)
+					case <-timer.C:
+					}
+				}
+			}
 			if t.state != 1 {
 				res.BlockedHandovers++
 			}
